@@ -15,6 +15,11 @@ behaviour-preserving ways of writing the same thing do not reach the rules at al
   N5  `t = E` immediately followed by `return t`                  ->  `return E`
   N6  `pass` next to other statements is dropped
   N8  `not (a is b)` -> `a is not b`; likewise in / not in, == / !=
+  N9  negation normal form: `not (a and b)` -> `not a or not b`, `not (a or b)` -> `not a and not b`;
+      with an else branch a disjunction counts as the negatively written test (N2), so `if a or b: X else: Y`
+      and `if not a and not b: Y else: X` meet
+  N10 `t = <attribute chain>` immediately followed by the only statement using t, as the receiver of its
+      outermost call  ->  the chain is written in place
   N7  keyword arguments of calls to package functions / methods whose signature is unique in the
       package become positional as far as the positions are contiguous
 
@@ -52,10 +57,13 @@ NEG = {ast.Is: ast.IsNot, ast.IsNot: ast.Is, ast.In: ast.NotIn, ast.NotIn: ast.I
 
 
 def negate(t):
+    """negation in negation normal form: `not` only in front of atoms"""
     if isinstance(t, ast.UnaryOp) and isinstance(t.op, ast.Not):
         return t.operand
     if isinstance(t, ast.Compare) and len(t.ops) == 1 and type(t.ops[0]) in NEG:
         return ast.copy_location(ast.Compare(left=t.left, ops=[NEG[type(t.ops[0])]()], comparators=t.comparators), t)
+    if isinstance(t, ast.BoolOp):
+        return ast.copy_location(ast.BoolOp(op=ast.Or() if isinstance(t.op, ast.And) else ast.And(), values=[negate(v) for v in t.values]), t)
     return ast.copy_location(ast.UnaryOp(op=ast.Not(), operand=t), t)
 
 
@@ -103,6 +111,25 @@ class _Expr(ast.NodeTransformer):
         self.generic_visit(n)
         if isinstance(n.op, ast.Not) and isinstance(n.operand, ast.Compare) and len(n.operand.ops) == 1 and type(n.operand.ops[0]) in NEG:
             return negate(n.operand)
+        if isinstance(n.op, ast.Not) and isinstance(n.operand, ast.BoolOp):
+            # N9 negation normal form (De Morgan); the operands were visited already, so the result is in normal form too
+            return self.visit(negate(n.operand))
+        if isinstance(n.op, ast.Not) and isinstance(n.operand, ast.UnaryOp) and isinstance(n.operand.op, ast.Not) and self.in_test:
+            return n.operand.operand
+        return n
+
+    in_test = False
+
+    def visit_BoolOp(self, n):
+        self.generic_visit(n)
+        # flatten a and (b and c)
+        vals = []
+        for v in n.values:
+            if isinstance(v, ast.BoolOp) and type(v.op) is type(n.op):
+                vals.extend(v.values)
+            else:
+                vals.append(v)
+        n.values = vals
         return n
 
     def visit_Call(self, n):
@@ -134,6 +161,7 @@ class Canon(object):
     def __init__(self, sigs):
         self.ex = _Expr(sigs)
         self.count = {}
+        self.fns = []
 
     def hit(self, rule):
         self.count[rule] = self.count.get(rule, 0) + 1
@@ -146,10 +174,15 @@ class Canon(object):
 
     def block(self, body):
         for s in body:
+            isfn = isinstance(s, (ast.FunctionDef, ast.AsyncFunctionDef))
+            if isfn:
+                self.fns.append(s)
             for f in ('body', 'orelse', 'finalbody'):
                 v = getattr(s, f, None)
                 if isinstance(v, list) and v and isinstance(v[0], ast.stmt):
                     setattr(s, f, self.block(v))
+            if isfn:
+                self.fns.pop()
             if isinstance(s, ast.Try):
                 for h in s.handlers:
                     h.body = self.block(h.body)
@@ -164,6 +197,20 @@ class Canon(object):
         return self.tidy(out)
 
     def tidy(self, out):
+        # N10
+        res = []
+        for s in out:
+            if res and self.fns and isinstance(res[-1], ast.Assign) and len(res[-1].targets) == 1 and isinstance(res[-1].targets[0], ast.Name) \
+                    and _chain(res[-1].value) and isinstance(s, (ast.Expr, ast.Assign, ast.AugAssign, ast.Return)) and isinstance(s.value, ast.Call) \
+                    and isinstance(s.value.func, ast.Attribute) and isinstance(s.value.func.value, ast.Name) and s.value.func.value.id == res[-1].targets[0].id:
+                t = res[-1].targets[0].id
+                uses = [n for n in ast.walk(self.fns[-1]) if isinstance(n, ast.Name) and n.id == t]
+                if len(uses) == 2:
+                    a = res.pop()
+                    s.value.func.value = a.value
+                    self.hit('N10')
+            res.append(s)
+        out = res
         # N5
         res = []
         for s in out:
@@ -232,9 +279,21 @@ class Canon(object):
         return [s] + rest
 
 
+def _chain(e):
+    """a call-free attribute chain rooted at a name: self.a, self.a.b, mod.x"""
+    if not isinstance(e, ast.Attribute):
+        return False
+    while isinstance(e, ast.Attribute):
+        e = e.value
+    return isinstance(e, ast.Name)
+
+
 def negative(t):
+    """the test is the negatively written one of the pair (T, not T): `not x`, != / is not / not in, or a disjunction
+    (whose negation is a conjunction)"""
     return (isinstance(t, ast.UnaryOp) and isinstance(t.op, ast.Not)) or \
-        (isinstance(t, ast.Compare) and len(t.ops) == 1 and isinstance(t.ops[0], (ast.NotEq, ast.IsNot, ast.NotIn)))
+        (isinstance(t, ast.Compare) and len(t.ops) == 1 and isinstance(t.ops[0], (ast.NotEq, ast.IsNot, ast.NotIn))) or \
+        (isinstance(t, ast.BoolOp) and isinstance(t.op, ast.Or))
 
 
 def _size(stmts):
